@@ -23,6 +23,15 @@ import (
 type c16Case struct {
 	Input  string `json:"input"`
 	Schema bool   `json:"schema"`
+	// the other fields of ast.Source: neither may influence the limit
+	BuiltIn bool   `json:"builtin,omitempty"`
+	Name    string `json:"name,omitempty"`
+}
+
+// c16Src holds the Source fields other than the text for the parse calls of the case being evaluated.
+var c16Src struct {
+	BuiltIn bool
+	Name    string
 }
 
 type c16Result struct {
@@ -33,7 +42,7 @@ type c16Result struct {
 
 func c16Parse(text string, schema bool, limit int, limited bool) (res c16Result, pan *kit.Panic) {
 	pan = kit.Safely(func() {
-		src := &ast.Source{Input: text}
+		src := &ast.Source{Input: text, BuiltIn: c16Src.BuiltIn, Name: c16Src.Name}
 		if schema {
 			var d *ast.SchemaDocument
 			var err error
@@ -90,6 +99,8 @@ var c16Garbage = []string{" \xff\xfe\x00", ` "unterminated`, " " + strings.Repea
 
 // c16Eval checks exactness, monotonicity and tail independence for every limit 0..N+2.
 func c16Eval(c c16Case) (viol string, n int, nearCount int) {
+	c16Src.BuiltIn, c16Src.Name = c.BuiltIn, c.Name
+	defer func() { c16Src.BuiltIn, c16Src.Name = false, "" }()
 	ends, lexOK := tokenEnds(c.Input)
 	n = len(ends)
 	unl, pan := c16Parse(c.Input, c.Schema, 0, false)
@@ -254,7 +265,7 @@ func c16FamilyEval(c c16FamilyCase) string {
 func TestC16(t *testing.T) {
 	r := kit.New(t, "C16")
 	defer r.Finish()
-	r.SetRule("documents of both grammars (G3 trees rendered with comments and random ignored text, single-lexeme mutants, lexically broken tails, repository examples), each parsed at EVERY limit 0..N+2 (N = token count incl. comments per the reference lexer). " +
+	r.SetRule("documents of both grammars (G3 trees rendered with comments and random ignored text, single-lexeme mutants, lexically broken tails, repository examples; a third of the sources flagged BuiltIn, with and without a name), each parsed at EVERY limit 0..N+2 (N = token count incl. comments per the reference lexer). " +
 		"oracle: limit 0 == unlimited; N <= L and unlimited success => identical tree incl. positions; N > L => error; unlimited failure => failure at every L; monotone in L; for N > L+2 the result is unchanged when the text after token L+2 is replaced by garbage (invalid bytes, unterminated string, 64 KiB of '['). " +
 		"Families of 1-8 MiB under limits 1..100000: failure within 50 ms + 20 us per limit token and bounded allocation. ParseSchemasWithLimit where per-source and in-total readings agree. non-trivial = (document, limit) pairs evaluated; distinct by document text")
 	r.Assume("token count N is taken from the reference lexer; inputs the reference cannot lex but the library can (open known findings of C03) are skipped")
@@ -312,7 +323,7 @@ func TestC16(t *testing.T) {
 				continue
 			}
 			for _, schema := range []bool{false, true} {
-				c := c16Case{Input: s, Schema: schema}
+				c := c16Case{Input: s, Schema: schema, BuiltIn: len(s)%3 == 0}
 				r.Begin("seed", func() interface{} { return c })
 				v, n, pairs := c16Eval(c)
 				r.End()
@@ -358,7 +369,10 @@ func TestC16(t *testing.T) {
 			text += rapid.SampledFrom([]string{` "abc`, " \x01", " 1.", ` """x`, " \\"}).Draw(rt, "broken")
 			class = "broken-tail"
 		}
-		c := c16Case{Input: text, Schema: schema}
+		c := c16Case{Input: text, Schema: schema, BuiltIn: rapid.IntRange(0, 2).Draw(rt, "builtin") == 0, Name: rapid.SampledFrom([]string{"", "prelude.graphql", "a.graphql"}).Draw(rt, "srcname")}
+		if c.BuiltIn {
+			r.Class("doc:source-flagged-built-in")
+		}
 		r.Begin("doc", func() interface{} { return c })
 		defer r.End()
 		v, n, pairs := c16Eval(c)
